@@ -243,6 +243,95 @@ func c14Case(c *caseCtx) {
 	}
 }
 
+// end to end: the thresholds and level indices the two heuristics report must be levels of the documented series
+// (computed from the parameters and data the decorator saw entering Evaluate), also after biases
+func c14EndToEnd(c *caseCtx) {
+	method := []string{"aspectEliminationHeuristic", "satisfactionHeuristic"}[c.idx%2]
+	increasing := method == "aspectEliminationHeuristic"
+	g := genRequest(c.rng, genOpts{method: method, minAlt: 2, maxAlt: 6, minCrit: 1, maxCrit: 4, nBiases: c.idx % 3, negValues: c.rng.Intn(3) == 0, distinctW: true})
+	mp := g.M["methodParameters"].(M)
+	if mp["function"] == "thresholds" {
+		genLevelsGenerated(c, mp, increasing)
+	}
+	d := decide(g.body(), true)
+	c.count("evaluations", 1)
+	if !d.OK {
+		c.count("rejected", 1)
+		return
+	}
+	ev := d.Trace.Eval
+	if ev == nil || !ev.Before.Params.OK || ev.Before.Params.Levels == nil {
+		c.inconclusive("no readable evaluate event")
+		return
+	}
+	s := &ev.Before
+	lv := s.Params.Levels
+	if want := strOr(mp, "function", ""); lv.Fn != want {
+		c.violate("levels-function", fmt.Sprintf("level function in force is '%s', the request configures '%s'", lv.Fn, want), M{"request": g.M})
+		return
+	}
+	rs, ok := refSeries(lv.Fn, increasing, lv.MinValue, lv.MaxValue, lv.Coefficient)
+	if !ok {
+		c.count("outside_domain", 1)
+		return
+	}
+	levels := refLevelsFromSeries(s, rs)
+	if levelFragile(s, levels) {
+		c.fragile()
+		return
+	}
+	key := "satisfiedThresholds"
+	if increasing {
+		key = "notSatisfiedThreshold"
+	}
+	checked := 0
+	for _, e := range d.View.Result {
+		idxF, ok := e.Evaluation["thresholdsIndex"].(float64)
+		if !ok {
+			c.violate("levels-report", "thresholdsIndex missing", M{"request": g.M})
+			return
+		}
+		idx := int(idxF)
+		if idx < 0 || idx > len(levels) {
+			c.violate("levels-count", fmt.Sprintf("%s reports level index %d, the documented series has %d levels (r = %v...)", e.Alternative.Id, idx, len(levels), head(rs, 6)), M{"request": g.M, "evaluated_on": s})
+			return
+		}
+		th, _ := e.Evaluation[key].(map[string]interface{})
+		if idx == len(levels) || len(th) == 0 {
+			continue // leftover / survivor: no level of the series attached
+		}
+		for cid, tv := range th {
+			cr, okc := s.crit(cid)
+			t, okt := tv.(float64)
+			if !okc || !okt {
+				c.violate("levels-report", "reported threshold for an unknown criterion "+cid, M{"request": g.M})
+				return
+			}
+			lo, hi := s.rng(cr)
+			if math.Abs(t-levels[idx][cid]) > 1e-9*(1+math.Abs(hi-lo)+math.Abs(lo)) {
+				c.violate("levels-threshold", fmt.Sprintf("%s reports threshold %v for %s at level %d; the documented series gives %v (r=%v, range [%v,%v], cost=%v, %s)", e.Alternative.Id, t, cid, idx, levels[idx][cid], rs[idx], lo, hi, cr.Cost, lv.Fn),
+					M{"request": g.M, "evaluated_on": s})
+				return
+			}
+			checked++
+		}
+	}
+	c.count("reported_thresholds_checked", checked)
+	if checked > 0 {
+		c.count("nontrivial", 1)
+		c.distinct(fmt.Sprintf("e2e|%s|%s|%v|%v|%v|%d", method, lv.Fn, lv.Coefficient, lv.MinValue, lv.MaxValue, len(d.Trace.Bias)))
+	}
+	if len(d.Trace.Bias) > 0 && checked > 0 {
+		c.count("e2e_after_bias", 1)
+	}
+}
+
+func genLevelsGenerated(c *caseCtx, mp M, increasing bool) {
+	for mp["function"] == "thresholds" {
+		genLevels(c.rng, mp, nil, increasing, profDyadic)
+	}
+}
+
 func head(xs []float64, n int) []float64 {
 	if len(xs) > n {
 		return xs[:n]
@@ -256,9 +345,12 @@ func init() {
 		rule: "the four generated level sources wired in main.go, driven directly (Find, Initialize, HasNext/Next, cap 3e6 levels) on problems with 1..3 criteria whose ranges are " +
 			"degenerate / negative / declared / observed, gain and cost; coefficient in {0.001,0.01,1/8,1/4,1/2,3/4,0.999} or random, min/max in {0,1/8,...,1} or random " +
 			"(incl. min >= max), plus out-of-range parameters that must be rejected. Oracle: the series of the statement (count, every threshold, strict monotonicity, " +
-			"end). Non-trivial = series with >=2 levels; distinct = (source, direction, coefficient, min, max, length).",
+			"end). Stream endToEnd: the thresholds / level indices reported by the two heuristics (also after biases) must be levels of the documented series for the " +
+			"parameters and data Evaluate received. Non-trivial = series with >=2 levels / a checked reported threshold; distinct = (source, direction, coefficient, min, max, length).",
 		assumptions: []string{"a case whose ratio comes within 1e-12 of the stop bound without being equal to it is fragile (skipped); dyadic parameters hit bounds exactly and are judged"},
 		streams: []*stream{
+			{name: "endToEnd", n: tierN(16000, 300000), unit: 4000, run: c14EndToEnd, floors: map[string]int64{"reported_thresholds_checked": 10000, "e2e_after_bias": 2000},
+				note: "aspect elimination / satisfaction requests with generated levels and 0..2 biases: every reported threshold and level index is checked against the documented series"},
 			{name: "grid", n: tierN(20000, 400000), unit: 2500, run: c14Case, floors: map[string]int64{"series_checked": 10000, "invalid_params": 1000, "clamped_at_bound": 100, "empty_series": 100}},
 		},
 	})
